@@ -485,15 +485,15 @@ Qed.
 (* ------------------------------------------------------------------ compositions *)
 
 (* PRQL spelling -> value -> SQL text -> value read by the database: the same v *)
-Theorem string_literal_end_to_end tbl d v : table_ok tbl = true -> str_ok d v = true ->
+Theorem string_literal_end_to_end tbl d v : table_ok tbl = true -> bs_free d v = true ->
   exists src, quoted_string tbl true src = Some (v, []) /\
-              emit_literal false (LString v) = Some (emit_string v) /\
-              sql_lex d (emit_string v) = [TString v].
+              emit_literal false (LString v) = Some (emit_literal_string v) /\
+              sql_lex d (emit_literal_string v) = [TString v].
 Proof.
   intros Ht Hok. exists (34 :: spell v ++ [34]). split; [|split].
   - apply (spell_roundtrip tbl v [] Ht eq_refl).
   - reflexivity.
-  - apply string_roundtrip_ok, Hok.
+  - apply literal_string_roundtrip, Hok.
 Qed.
 
 Theorem int_literal_end_to_end d n : n <= I64_MAX ->
